@@ -431,7 +431,7 @@ func specP2(c *mon.Ctx, pi *p2Inst) {
 		} else if c.Guard(P+"/NewPermutation/panic/"+cls, func() string { return cls }, func() { h = pi.newPerm(ps.t, ps.rf, ps.rp, ps.seed) }) {
 			continue
 		}
-		ins := stateInputs(r, pi.q, ps.t, c.Pick(6, 40))
+		ins := stateInputs(r, pi.q, ps.t, c.Pick(12, 60))
 		for k, in := range ins {
 			in := in
 			fenced := k%2 == 0
